@@ -184,6 +184,15 @@ class Engine:
             return VFn('spec', name=name)
         if name in self.ctr.globals_:
             return self.global_obj(st, name)
+        if self.ctr.closure_of:
+            # local functions of the enclosing function (this function itself for recursion)
+            try:
+                outer, _, _ = source.find_def(self.ctr.closure_of)
+                for n_ in ast.walk(outer):
+                    if isinstance(n_, ast.FunctionDef) and n_.name == name and n_ is not outer:
+                        return VFn('closure', qual='%s.%s' % (self.ctr.closure_of, name), node=n_)
+            except BindingError:
+                pass
         if hasattr(self.live_mod, name):
             return self.live_value(getattr(self.live_mod, name), name)
         if name in self.BUILTINS:
@@ -330,6 +339,21 @@ class Engine:
                 st.may_raise(recv.t == 0, 'AttributeError', 'None.%s' % attr)
                 return from_py(obj)
             fk = self.field_kind(cls, attr)
+            if fk is None and kind == 'none' and cls:
+                # a method that only some subclasses have (e.g. BaseNode.get_leaf_for_position on a NodeOrLeaf):
+                # AttributeError unless the object is an instance of a defining class
+                import inspect as _insp
+                base = classes.get(cls)
+                roots = []
+                for k in classes.table().values():
+                    if base is not None and issubclass(k, base) and attr in vars(k) and _insp.isfunction(vars(k)[attr]):
+                        if not any(r is not k and issubclass(k, r) for r in roots):
+                            roots = [r for r in roots if not issubclass(r, k)] + [k]
+                if len(roots) == 1:
+                    d = roots[0]
+                    isd = z3.Function('$isinst_' + d.__name__, I, B)(recv.t)
+                    st.may_raise(z3.Or(recv.t == 0, z3.Not(isd)), 'AttributeError', '%s.%s' % (cls, attr))
+                    return VFn('bound', recv=VRef(recv.t, d.__name__), qual='%s.%s.%s' % (d.__module__, d.__qualname__, attr), name=attr)
             if fk is None:
                 raise OutOfSubset('attribute %s of %s has no declared kind' % (attr, cls))
             st.may_raise(recv.t == 0, 'AttributeError', 'None.%s' % attr)
